@@ -43,17 +43,17 @@ def run_tlc(*a, **kw):  # noqa: F811
     try:
         return _run_tlc(*a, **kw)
     except MachineryError as e:
-        if "(rc=143)" in str(e) or "(rc=137)" in str(e):
+        if any("(rc=%d)" % rc in str(e) for rc in (143, 137, -9, -15)):
             return _run_tlc(*a, **kw)
         raise
 
 
 CHILD = os.path.join(os.path.dirname(os.path.dirname(os.path.abspath(__file__))), "c19_child.py")
-WORKERS = min(16, os.cpu_count() or 4)
+WORKERS = min(32, 2 * (os.cpu_count() or 4))   # single-threaded, short-lived child processes
 
 # table -> (kind, database, primary key columns)
 TABLES = {"tokens": ("token", "id", (0, 1, 3)), "metadata": ("metadata", "id", (0, 1)),
-          "attestations": ("attestation", "id", (0, 2)), "att": ("blob", "att", (0,))}
+          "attestations": ("attestation", "id", (0, 1, 2)), "att": ("blob", "att", (0,))}
 TABLES_DB = {kind: db for kind, db, _pk in TABLES.values()}
 PROPERTY_INVARIANTS = {
     "AckedDurable": "a record whose insert call had returned is not in the durable image",
@@ -134,8 +134,15 @@ def blob(n, again=False):
 
 def batch(dbs, items, end):
     """The items run inside 'with database:' blocks of the databases dbs (entered in that order), which are left
-    normally ("ok"), by raise IgnoreCommits ("ignore") or by an application error that is caught outside ("error")."""
+    normally ("ok"), by raise IgnoreCommits ("ignore") or by an application error that is caught outside ("error").
+    An item may be a batch again (blocks nest, also blocks of the same database)."""
     return {"op": "batch", "dbs": list(dbs), "items": list(items), "end": end}
+
+
+def imp(name, after=None, auths=()):
+    """A whole credential (token, metadata, one attestation per listed authority) that was made elsewhere is handed
+    to PseudonymManager.add_credential in one call."""
+    return {"op": "import", "name": name, "after": after, "auths": list(auths)}
 
 
 SCRIPTED = {
@@ -156,6 +163,25 @@ SCRIPTED = {
                   batch(("att",), [blob(0), blob(1)], "error"), blob(2),
                   batch(("att", "id"), [blob(3), cred("b2", "b1")], "ignore"), cred("b3", "b2"), blob(4),
                   batch(("id", "att"), [cred("b4", "b3"), blob(5)], "ok")],
+    # history of the commit gate with NESTED blocks of one database: an inner block in which no commit of that
+    # database is asked for (its only insert goes to the other database), an inner block that is abandoned after
+    # an insert - the outer block, which holds acknowledgements-to-be, is left normally each time
+    "nested": [batch(("id",), [cred("n0"), batch(("id",), [blob(0)], "ok")], "ok"),
+               batch(("id",), [cred("n1", "n0"), batch(("id",), [attest("n0", 0)], "error"), attest("n1", 1)], "ok")],
+    # every way of leaving the inner and the outer block, empty inner blocks, three levels, both databases
+    "nested-2": [batch(("att", "id"), [blob(0), cred("n0"), batch(("id", "att"), [], "ok"), blob(1)], "ok"),
+                 batch(("id",), [cred("n1", "n0"), batch(("id",), [cred("n2", "n1")], "ok"), attest("n1", 0)], "ok"),
+                 batch(("id",), [attest("n2", 1), batch(("id",), [batch(("id",), [], "ok"), cred("n3", "n2")],
+                                                        "ignore"), cred("n4", "n2")], "ok"),
+                 batch(("id",), [cred("n5", "n4"), batch(("id",), [], "error")], "error"),
+                 batch(("att",), [blob(2), batch(("att",), [], "ignore")], "ok"),
+                 cred("n6", "n4"), blob(3)],
+    # the multi-step write: whole credentials (token + metadata + attestations of several authorities) through ONE
+    # add_credential call, chained, followed by a further attestation
+    "sequence": [imp("q0", None, (0, 1)), imp("q1", "q0", (2,)), attest("q1", 0)],
+    "sequence-2": [cred("q0"), imp("q1", "q0", (0, 1, 2)), batch(("id",), [imp("q2", "q1", (1,))], "ok"),
+                   imp("q3", "q0", ()), attest("q3", 2), batch(("id",), [imp("q4", "q3", (0, 2))], "error"),
+                   imp("q5", "q2", (1, 0))],
 }
 LONG_CHAIN = 150   # stored tokens in one chain, more than any bounded waiting room of the token tree (100)
 
@@ -171,31 +197,53 @@ def long_history(n, tail=True):
     return items
 
 
-def generated_items(rng, n, blocks=False):
+DBSETS = (("id",), ("att",), ("id", "att"), ("att", "id"))
+
+
+def generated_items(rng, n, blocks=False, nest=False):
     """A random valid workload; blocks: runs of its items are put into 'with database:' blocks over random databases
     that are left in a random way (an item that builds on a record which only an abandoned block had inserted finds
-    it missing after a restart and ends the workload there)."""
-    flat = _generated_items(rng, n)
-    if not blocks:
+    it missing after a restart and ends the workload there); nest: whole credentials through add_credential are
+    among the items and the blocks nest (inner blocks - possibly empty - around random sub-runs)."""
+    flat = _generated_items(rng, n, imports=nest)
+    if not blocks and not nest:
         return flat
-    out, i = [], 0
-    while i < len(flat):
-        if rng.random() < 0.35:
-            k = rng.randint(1, 3)
-            out.append(batch(rng.choice((("id",), ("att",), ("id", "att"), ("att", "id"))), flat[i:i + k],
-                             rng.choice(("ok", "ignore", "error"))))
-            i += k
-        else:
-            out.append(flat[i])
-            i += 1
-    return out
+
+    def blocked(items, level):
+        out, i = [], 0
+        while i < len(items):
+            if rng.random() < (0.35 if level == 0 else 0.5):
+                k = rng.randint(0 if level else 1, 3)
+                inner = items[i:i + k]
+                if nest and level < 2:
+                    inner = blocked(inner, level + 1)
+                    if rng.random() < 0.4:
+                        # the block ends with an inner block in which nothing is written
+                        inner.append(batch(rng.choice(DBSETS), [], rng.choice(("ok", "ok", "ignore", "error"))))
+                out.append(batch(rng.choice(DBSETS), inner, rng.choice(("ok", "ok", "ignore", "error") if nest else
+                                                                       ("ok", "ignore", "error"))))
+                i += k
+                if k == 0 and rng.random() < 0.5:
+                    out.append(items[i])
+                    i += 1
+            else:
+                out.append(items[i])
+                i += 1
+        return out
+    return blocked(flat, 0)
 
 
-def _generated_items(rng, n):
+def _generated_items(rng, n, imports=False):
     items, creds, attested, nblob = [], [], set(), 2
     while len(items) < n:
         choice = rng.random()
-        if not creds or choice < 0.45:
+        if imports and choice < 0.2:
+            name = "g%d" % len(creds)
+            items.append(imp(name, rng.choice(creds) if creds and rng.random() < 0.8 else None,
+                             rng.sample(range(3), rng.randint(0, 3))))
+            creds.append(name)
+            attested.add(name)
+        elif not creds or choice < 0.45:
             name = "g%d" % len(creds)
             items.append(cred(name, rng.choice(creds) if creds and rng.random() < 0.8 else None))
             creds.append(name)
@@ -264,6 +312,9 @@ def run_scenario(base, sc):
             env = dict(os.environ)
             env["PYTHONHASHSEED"] = "0"
             env.pop("PYTHONPATH", None)
+            # the hundreds of child processes share one bytecode cache (in the scratch directory of this run)
+            env.pop("PYTHONDONTWRITEBYTECODE", None)
+            env["PYTHONPYCACHEPREFIX"] = os.path.join(base, "pyc")
             p = subprocess.run([sys.executable, CHILD, cfgp], capture_output=True, text=True, env=env, timeout=300)
             if p.returncode == -9:
                 info["killed"].append(ph["kill"] if ph["kill"] is not None else "item+%s" % ph.get("kill_rel"))
@@ -325,10 +376,30 @@ def classify(stmt):
             return "INSERT:" + t
     if u.startswith("REPLACE INTO OPTION"):
         return "SetVer"
-    raise MachineryError("C19: statement not known to the trace alphabet: %r" % stmt[:120])
+    return "UNKNOWN"
+
+
+def parent_of(table, item):
+    """The record a row of this table, written on behalf of this workload item, points to: (credential name, kind),
+    None for no parent (a token at the genesis, a blob); raises LookupError when the item cannot have written it."""
+    op = (item or {}).get("op")
+    if table == "att":
+        return None
+    if table == "tokens" and op in ("credential", "import"):
+        return (item["after"], "token") if item.get("after") else None
+    if table == "metadata" and op in ("credential", "import"):
+        return (item["name"], "token")
+    if table == "attestations" and op in ("attest", "import"):
+        return (item["cred"] if op == "attest" else item["name"], "metadata")
+    raise LookupError("a row of %s written while the workload was at %s" % (table, op or "no item"))
 
 
 def build_trace(log, sc, legacy_row):
+    """The refs between records are resolved when the whole log has been read (the code is free to write the records
+    of a credential in any order - the specification decides whether that order is acceptable); a record that is
+    pointed to but was never written is a record of the trace that no statement ever executes.  Whatever the code
+    did that the alphabet of CrashDbTrace.tla has no event for becomes an 'Unknown' event, which no action of the
+    specification matches: the trace is rejected there (a verdict, not a failure of the machinery)."""
     items = sc["plan"]["items"]
     recs, index, name2rec = [], {}, {}
     events = []
@@ -338,7 +409,7 @@ def build_trace(log, sc, legacy_row):
         kind, _db, pk = TABLES[table]
         key = (table, digest([values[i] for i in pk]))
         if key not in index:
-            recs.append({"kind": kind, "ref": ref, "digs": []})
+            recs.append({"kind": kind, "ref": 0, "refkey": ref, "digs": []})
             index[key] = len(recs)
         r = index[key]
         d = digest(values)
@@ -346,7 +417,7 @@ def build_trace(log, sc, legacy_row):
             recs[r - 1]["digs"].append(d)
         return r
     if legacy_row is not None:
-        legacy.append(record("att", legacy_row, 0))
+        legacy.append(record("att", legacy_row, None))
 
     alive = False
     call = None      # current Database.execute/executescript/commit call: {"bind", "table", "emitted": [event idx]}
@@ -361,7 +432,9 @@ def build_trace(log, sc, legacy_row):
             alive, call, ins, item = True, None, None, None
             events.append({"a": "Start"})
         elif k == "item":
-            item = items[e["i"]] if "j" not in e else items[e["i"]]["items"][e["j"]]
+            item = items[e["i"]]
+            for j in e.get("p", ()):
+                item = item["items"][j]
         elif k in ("item_done", "item_skip", "item_abort"):
             item = None
         elif k == "call":
@@ -392,31 +465,28 @@ def build_trace(log, sc, legacy_row):
             name = classify(e["s"])
             if name is None:
                 continue
+            ev = None
             if name.startswith("INSERT:"):
                 table = name[7:]
-                if call is None or call.get("bind") is None:
-                    raise MachineryError("C19: INSERT into %s outside an execute() call with bindings" % table)
-                values = call["bind"]
-                if table == "tokens":
-                    ref = name2rec.get((item.get("after"), "token"), 0) if item and item.get("after") else 0
-                    if item and item.get("after") and not ref:
-                        raise MachineryError("C19: cannot resolve the parent token of %r" % item)
-                elif table == "metadata":
-                    ref = name2rec[(item["name"], "token")]
-                elif table == "attestations":
-                    ref = name2rec[(item["cred"], "metadata")]
+                try:
+                    if call is None or call.get("bind") is None:
+                        raise LookupError("INSERT into %s outside an execute() call with bindings" % table)
+                    values = call["bind"]
+                    if len(values) <= max(TABLES[table][2]):
+                        raise LookupError("INSERT into %s with %d values" % (table, len(values)))
+                    r = record(table, values, parent_of(table, item))
+                except LookupError as err:
+                    ev = {"a": "Unknown", "d": e["db"], "what": "%s: %s" % (err, e["s"][:80])}
                 else:
-                    ref = 0
-                r = record(table, values, ref)
-                if table == "tokens":
-                    name2rec[(item["name"], "token")] = r
-                elif table == "metadata":
-                    name2rec[(item["name"], "metadata")] = r
-                ev = {"a": "Exec", "d": TABLES[table][1], "r": r}
-                if ins is not None:
-                    ins["recs"].append(r)
-                    if events[ins["call_ev"]]["r"] == 0:
-                        events[ins["call_ev"]]["r"] = r
+                    if table in ("tokens", "metadata"):
+                        name2rec[(item["name"], "token" if table == "tokens" else "metadata")] = r
+                    ev = {"a": "Exec", "d": TABLES[table][1], "r": r}
+                    if ins is not None:
+                        ins["recs"].append(r)
+                        if events[ins["call_ev"]]["r"] == 0:
+                            events[ins["call_ev"]]["r"] = r
+            elif name == "UNKNOWN":
+                ev = {"a": "Unknown", "d": e["db"], "what": "statement outside the alphabet: " + e["s"][:80]}
             else:
                 ev = {"a": name, "d": e["db"]}
             events.append(ev)
@@ -454,6 +524,15 @@ def build_trace(log, sc, legacy_row):
             raise MachineryError("C19: unknown log event %r" % k)
     if alive:
         raise MachineryError("C19: the last child neither exited nor was killed")
+    # refs: by the names of the workload, whatever the order in which the records were written
+    for rec in list(recs):
+        key = rec.pop("refkey", None)
+        if key is None:
+            continue
+        if key not in name2rec:
+            recs.append({"kind": key[1], "ref": 0, "digs": []})     # pointed to, never written
+            name2rec[key] = len(recs)
+        rec["ref"] = name2rec[key]
     # program-layer view: a call whose record never reached sqlite (killed before its INSERT) is, for the program
     # layer, a kill in the idle state - its lone BEGIN is dropped together with the call
     strict, skipping = [], False
@@ -528,6 +607,8 @@ def validate(ctx, traces, tag, max_findings=8):
             detail = " (open() raised %s: %s)" % (ev.get("exc"), ev.get("msg"))
         elif ev is not None and ev["a"] == "Observe" and ev.get("problems"):
             detail = " (%s)" % "; ".join(ev["problems"][:3])
+        elif ev is not None and ev["a"] == "Unknown":
+            detail = " (%s)" % ev.get("what")
         sig = "%s:%s:%s" % (r.violated, "legacy" if t["legacy"] else "fresh", "|".join(classes) or "no-kill")
         operr = inline = None
         if ev is not None and ev["a"] == "OpenError":
@@ -580,7 +661,11 @@ SPEC_CONTROLS = (("spec with the pinned version read (missing row raises; schema
                  ("spec with the pinned non-atomic schema upgrade violates ReopenOk",
                   "CrashDb_pinned_upgrade.cfg", "ReopenOk"),
                  ("spec whose insert returns before the commit violates AckedDurable",
-                  "CrashDb_nocommit.cfg", "AckedDurable"))
+                  "CrashDb_nocommit.cfg", "AckedDurable"),
+                 ("spec whose __enter__ starts the count of deferred commits afresh inside a block violates "
+                  "AckedDurable", "CrashDb_enter_reset.cfg", "AckedDurable"),
+                 ("spec that writes the records of a credential in any order violates PseudonymVerifies",
+                  "CrashDb_child_first.cfg", "PseudonymVerifies"))
 
 
 def start_model_check(tlcpool, tier):
@@ -679,9 +764,45 @@ def corrupt(traces, how):
             for i, e in enumerate(evs):
                 if e["a"] == "Leave" and e["how"] == "error":
                     start = max(j for j in range(i) if evs[j] == {"a": "Enter", "d": e["d"]})
+                    if sum((x["a"] == "Enter") - (x["a"] == "Leave") for x in evs[start:i] if x.get("d") == e["d"]) \
+                            != 1 or any(x["a"] in ("Enter", "Leave") and x["d"] == e["d"] for x in evs[start + 1:i]):
+                        continue     # (the outermost block of its database, nothing nested in it)
+                    if sum((x["a"] == "Enter") - (x["a"] == "Leave") for x in evs[:start]
+                           if x.get("d") == e["d"] and x["a"] in ("Enter", "Leave")) != 0:
+                        continue
                     if any(x["a"] == "Return" and TABLES_DB[t["recs"][x["r"] - 1]["kind"]] == e["d"]
                            for x in evs[start:i]):
                         return [dict(t, events=evs[:i] + [dict(e, how="ok")] + evs[i + 1:])]
+        elif how == "drop-nested-commit":
+            # an INNER block of a database is left normally without the commit the outer block's inserts were
+            # waiting for; nothing else commits before the outer block is left normally as well
+            depth = {"id": 0, "att": 0}
+            for i, e in enumerate(evs):
+                if e["a"] == "Enter":
+                    depth[e["d"]] += 1
+                elif e["a"] == "Crash":
+                    depth = {"id": 0, "att": 0}
+                elif e["a"] == "Leave":
+                    depth[e["d"]] -= 1
+                    if e["how"] == "ok" and depth[e["d"]] == 1 and evs[i - 1] == {"a": "Commit", "d": e["d"]} \
+                            and evs[i + 1:i + 2] == [{"a": "Leave", "d": e["d"], "how": "ok"}]:
+                        return [dict(t, events=evs[:i - 1] + evs[i:])]
+        elif how == "foreign-statement":
+            # the code runs a statement the specification has no action for
+            for i, e in enumerate(evs):
+                if e["a"] == "Return":
+                    return [dict(t, events=evs[:i + 1] + [{"a": "Unknown", "d": "id", "what": "DROP TABLE Tokens"}]
+                                 + evs[i + 1:])]
+        elif how == "child-before-parent":
+            # the metadata of a credential is written (and committed) before the token it points to
+            for m, rec in enumerate(t["recs"], 1):
+                p_ = rec["ref"]
+                ret = [i for i, e in enumerate(evs) if e["a"] == "Return" and e.get("r") in (m, p_)]
+                if rec["kind"] == "metadata" and len(ret) >= 2 and evs[ret[0]]["r"] == p_ \
+                        and evs[ret[0] - 1] == {"a": "Commit", "d": "id"}:
+                    swap = {m: p_, p_: m}
+                    return [dict(t, events=[dict(e, r=swap.get(e["r"], e["r"])) if e["a"] in ("Call", "Exec", "Return")
+                                            else e for e in evs])]
         elif obs:
             i = obs[-1]
             o = json.loads(json.dumps(evs[i]))
@@ -717,7 +838,9 @@ TRACE_CONTROLS = (("drop-commit", "AckedDurable"), ("lose-acked-row", "ObsMatche
                   ("torn-row", "ObsNoPartial"), ("unverifiable", "ObsVerifies"),
                   ("drop-block-commit", "AckedDurable"), ("ack-in-aborted-block", "AckedDurable"),
                   ("tree-hole", "ObsRebuiltMatches"), ("tree-unverified", "ObsRebuiltWhole"),
-                  ("credential-lost", "ObsRebuiltMatches"))
+                  ("credential-lost", "ObsRebuiltMatches"),
+                  ("drop-nested-commit", "AckedDurable"), ("child-before-parent", "PseudonymVerifies"),
+                  ("foreign-statement", "TraceAccepted"))
 
 
 def trace_controls(good):
@@ -758,8 +881,11 @@ def run(tier, seed, replay=None):
                         "the key vault and the Boneh identity algorithm are trusted to build workload material",
                         "a record inserted inside a 'with database:' block counts as acknowledged when the outermost block "
                         "of its database is left normally, never when it is left by IgnoreCommits or another exception "
-                        "(the property is silent on blocks; no caller in the repository uses one); blocks of the same "
-                        "database are not nested by the workloads"]
+                        "(the property is silent on blocks; no caller in the repository uses one); blocks of one database "
+                        "nest: the records wait for the OUTERMOST block, and an inner block that is left by IgnoreCommits "
+                        "or another exception takes the acknowledgement of everything its database holds at that moment "
+                        "with it (one connection, one transaction), also when the exception is caught inside the outer block",
+                        "blocks are entered and left by one thread"]
     rng = random.Random(seed)
     material = Material(9)
     clock = {"t": time.time(), "cpu": sum(os.times()[:4])}
@@ -771,7 +897,7 @@ def run(tier, seed, replay=None):
         clock["t"], clock["cpu"] = now, cpu
 
     base = scratch_dir("c19-")
-    tlcpool = concurrent.futures.ThreadPoolExecutor(max_workers=3)
+    tlcpool = concurrent.futures.ThreadPoolExecutor(max_workers=4)
     try:
         mcjobs = [] if replay else start_model_check(tlcpool, tier)
         with concurrent.futures.ThreadPoolExecutor(max_workers=WORKERS) as pool:
@@ -785,9 +911,9 @@ def run(tier, seed, replay=None):
                 src["long-history"] = long_history(LONG_CHAIN)
                 name = rp["scenario"]
                 key = name.replace("legacy:", "").replace("second-run:", "")
-                if key.startswith(("generated-", "genblocks-")):
+                if key.startswith(("generated-", "genblocks-", "gennest-")):
                     src[key] = generated_items(random.Random(int(key.split("-")[1])), int(key.split("-")[2]),
-                                               blocks=key.startswith("genblocks-"))
+                                               blocks=not key.startswith("generated-"), nest=key.startswith("gennest-"))
                 sc = scenario(name, src[key], legacy=name.startswith("legacy:"))
                 sc["phases"] = rp["phases"]
                 log, lrow, _info = run_scenario(base, sc)
@@ -810,8 +936,25 @@ def run(tier, seed, replay=None):
                          ("long-history", long_history(LONG_CHAIN), False,
                           ({"items": list(range(LONG_CHAIN)), "kill": None},),
                           {"phase": {"items": None, "kill": None, "kill_rel": random.Random(seed + 19).randint(1, 30)}}
-                          if quick else {"from_item": True, "sample": 60, "rng": random.Random(seed + 19)})]
+                          if quick else {"from_item": True, "sample": 60, "rng": random.Random(seed + 19)}),
+                         # nested "with database:" blocks of one database (the commit gate is one counter): the
+                         # whole run is checked state by state, the kill lands at the points from the first item
+                         # on (quick: a seeded sample of them)
+                         ("nested", SCRIPTED["nested"], False, (),
+                          dict({"from_item": True}, **({"sample": 16, "rng": random.Random(seed + 23)} if quick else {}))),
+                         # whole credentials through one add_credential call (token, metadata, attestations)
+                         ("sequence", SCRIPTED["sequence"], False, (),
+                          dict({"from_item": True}, **({"sample": 10, "rng": random.Random(seed + 29)} if quick else {})))]
                 if tier == "thorough":
+                    plans.append(("nested-2", SCRIPTED["nested-2"], False, (), {"from_item": True}))
+                    plans.append(("sequence-2", SCRIPTED["sequence-2"], False, (), {"from_item": True}))
+                    plans.append(("legacy:sequence", SCRIPTED["sequence"], True, (), {"from_item": True}))
+                    for gi in range(6):
+                        gseed = seed * 1000 + 700 + gi
+                        n = 6 + gi % 4
+                        plans.append(("gennest-%d-%d" % (gseed, n),
+                                      generated_items(random.Random(gseed), n, blocks=True, nest=True), False, (),
+                                      {"from_item": True}))
                     # first process stores two items and exits; the kill hits the SECOND process
                     plans.append(("second-run:fork", SCRIPTED["fork"], False, ({"items": [0, 1], "kill": None},), {}))
                     plans.append(("fork", SCRIPTED["fork"], False, (), {}))
@@ -863,48 +1006,55 @@ def run(tier, seed, replay=None):
                     batches["double"] = doubles
                 ctx.note("crash_points", npoints)
         lap("enumeration of kill points in child processes (TLC on the spec runs alongside)")
+    except BaseException:
+        tlcpool.shutdown(wait=True, cancel_futures=True)
+        raise
+    finally:
+        shutil.rmtree(base, ignore_errors=True)
+
+    # TLC on the specification itself is still running: it is joined after the recorded traces have been validated
+    try:
+        all_traces = [t for ts in batches.values() for t in ts]
+        good = [t for t in all_traces if len(t["kills"]) == 1 and not any(e["a"] == "OpenError" for e in t["events"])]
+        with concurrent.futures.ThreadPoolExecutor(max_workers=4) as tp:
+            # (the few very long traces are validated by a TLC of their own: breadth-first search has nothing to do in
+            # parallel on them)
+            main_job = tp.submit(tlc_traces, [t for t in all_traces if t not in batches.get("long", ())])
+            long_job = tp.submit(tlc_traces, batches["long"]) if batches.get("long") else None
+            side = []
+            if not replay:
+                # trace-level negative controls and the (informational) program-layer conformance run alongside
+                fulls = [t for t in all_traces if not t["kills"] and not any(e["a"] == "OpenError" for e in t["events"])]
+                controls_job = tp.submit(trace_controls, sorted(good + fulls, key=lambda t: len(t["events"])))
+                side.append(tp.submit(strict_conformance, ctx, (batches.get("fresh", []) + batches.get("double", []))[:300]
+                                      + batches.get("legacy", [])[:300], "fresh+legacy"))
+                if batches.get("long") and tier == "thorough":
+                    side.append(tp.submit(strict_conformance, ctx, batches["long"][:300], "long"))
+            r = main_job.result()
+            rl = long_job.result() if long_job else None
+            for j in side:
+                j.result()
+            controls = controls_job.result() if not replay else []
+        if r.ok and (rl is None or rl.ok):
+            ctx.add_tlc("trace-all", r)
+            if rl is not None:
+                ctx.add_tlc("trace-long", rl)
+            for cname, fired in controls:
+                ctx.control(cname, fired)
+        else:
+            ctx.note("trace_controls", "not enforced: the recorded traces they are derived from are rejected themselves")
+            # something is rejected: go through the batches one by one to report every distinct failure
+            for tag, traces in batches.items():
+                validate(ctx, traces, tag)
+            if not ctx.violations:
+                raise MachineryError("C19: TLC rejects the combined batch (%s) but no single batch" % (
+                    r.violated or rl.violated))
+        lap("TLC validation of the recorded traces, controls, program-layer conformance")
         if mcjobs:
             finish_model_check(ctx, mcjobs)
         lap("waiting for TLC on the specification")
     finally:
         tlcpool.shutdown(wait=True, cancel_futures=True)
-        shutil.rmtree(base, ignore_errors=True)
-
-    all_traces = [t for ts in batches.values() for t in ts]
-    good = [t for t in all_traces if len(t["kills"]) == 1 and not any(e["a"] == "OpenError" for e in t["events"])]
-    with concurrent.futures.ThreadPoolExecutor(max_workers=4) as tp:
-        # (the few very long traces are validated by a TLC of their own: breadth-first search has nothing to do in
-        # parallel on them)
-        main_job = tp.submit(tlc_traces, [t for t in all_traces if t not in batches.get("long", ())])
-        long_job = tp.submit(tlc_traces, batches["long"]) if batches.get("long") else None
-        side = []
-        if not replay:
-            # trace-level negative controls and the (informational) program-layer conformance run alongside
-            controls_job = tp.submit(trace_controls, sorted(good, key=lambda t: len(t["events"])))
-            side.append(tp.submit(strict_conformance, ctx, (batches.get("fresh", []) + batches.get("double", []))[:300]
-                                  + batches.get("legacy", [])[:300], "fresh+legacy"))
-            if batches.get("long") and tier == "thorough":
-                side.append(tp.submit(strict_conformance, ctx, batches["long"][:300], "long"))
-        r = main_job.result()
-        rl = long_job.result() if long_job else None
-        for j in side:
-            j.result()
-        controls = controls_job.result() if not replay else []
-    if r.ok and (rl is None or rl.ok):
-        ctx.add_tlc("trace-all", r)
-        if rl is not None:
-            ctx.add_tlc("trace-long", rl)
-        for cname, fired in controls:
-            ctx.control(cname, fired)
-    else:
-        ctx.note("trace_controls", "not enforced: the recorded traces they are derived from are rejected themselves")
-        # something is rejected: go through the batches one by one to report every distinct failure
-        for tag, traces in batches.items():
-            validate(ctx, traces, tag)
-        if not ctx.violations:
-            raise MachineryError("C19: TLC rejects the combined batch (%s) but no single batch" % (
-                r.violated or rl.violated))
-    lap("TLC validation of the recorded traces, controls, program-layer conformance")
     ctx.note("timing", phases_t)
     nev = 0
     for t in all_traces:
